@@ -225,6 +225,15 @@ def _introspect_fun(
     ast_f: Union[ast.Lambda, ast.FunctionDef]
     if is_lambda(f):
         # _logger.debug(f"_introspect: is_lambda: {f}")
+        if not gctx.is_authorized_path(fun_path):
+            # (a named function of a module that is not accepted is refused when its path is resolved,
+            # at the end of this function; a lambda has no path that can be resolved)
+            raise DDSException(
+                f"Cannot evaluate the lambda function {f}: the module '{fun_module.__name__}' has not been "
+                f"whitelisted for use by DDS. Use the function 'dds.accept_module' to whitelist "
+                f"{fun_module.__name__} or one of its parent modules.",
+                DDSErrorCode.MODULE_NOT_FOUND,
+            )
         src = inspect.getsource(f)
         h = dds_hash(src)
         # Have a stable name for the lambda function
